@@ -219,7 +219,10 @@ func (c *client) PushBlobChunkedResume(ctx context.Context, repo string, id stri
 		}
 		resp, err := c.do(req, http.StatusNoContent)
 		if err != nil {
-			return nil, fmt.Errorf("cannot recover chunk offset: %v", err)
+			// Return the registry's error as it is, like the other
+			// methods do, so that its code and status survive
+			// (for example ErrBlobUploadUnknown for an unknown upload ID).
+			return nil, err
 		}
 		location, err = locationFromResponse(resp)
 		if err != nil {
